@@ -45,9 +45,7 @@ def refMask (cache : List Row) : List Bool :=
 
 def refPolicy (X : ExpTab) (cfg : Cfg) : Policy where
   route cache cent := argmaxFirst (jtArrVec cache cent)
-  -- `min_safe_uint(new_n)` raises `ValueError` for `new_n ≥ 2^64` before the criterion is consulted;
-  -- the model turns that (unreachable) error into a rejected merge
-  accept c s := decide (c.n + s.n < 2 ^ 64) && accept cfg.merge X cfg.thr (c.mergedSummary s) c.summary s.summary
+  accept c s := accept cfg.merge X cfg.thr (c.mergedSummary s) c.summary s.summary
   mask := refMask
 
 /-! ### insertion of one unit at the root -/
